@@ -13,6 +13,8 @@ pub struct Cfg {
     pub node_v6: bool,
     pub k: usize,
     pub table: usize,
+    /// ask with every transaction id length 0..=32 instead of {0, 8, 32}
+    pub all_tid_lengths: bool,
 }
 
 pub fn run_one(cfg: &Cfg, rng_seed: u64) -> (sim::RunResult, single::Findings, NodeCfg) {
@@ -31,14 +33,15 @@ pub fn run_one(cfg: &Cfg, rng_seed: u64) -> (sim::RunResult, single::Findings, N
     let askers: [usize; 2] = if cfg.v6_peers { [2, 1] } else { [1, 2] };
     for (ai, asker) in askers.iter().enumerate() {
         for (wi, w) in ["-", "n4", "n6", "both"].iter().enumerate() {
-            for (ti, tl) in [0usize, 8, 32].iter().enumerate() {
+            let lens: Vec<usize> = if cfg.all_tid_lengths { (0..=32).collect() } else { vec![0, 8, 32] };
+            for (ti, tl) in lens.iter().enumerate() {
                 let tid: String = hex(&vec![b'x'; *tl]);
-                let at = t + (ai * 12 + wi * 3 + ti) as u64 * 10;
+                let at = t + (ai * 4 * 33 + wi * 33 + ti) as u64 * 2;
                 b.sc.actions.push((When::At(at), Action::PeerCommand { peer: single::client_addr(*asker), cmd: format!("gp 1 {w} tid={tid}") }));
             }
         }
     }
-    t += 300;
+    t += 600;
     // other reply kinds with the longest tid
     let tid32 = hex(&[b'y'; 32]);
     for (i, cmd) in [format!("fn both tid={tid32}"), format!("ping tid={tid32}"), format!("ann 1 7 random tid={tid32}"), format!("ann 9 7 valid tid={tid32}")].iter().enumerate() {
@@ -52,12 +55,12 @@ pub fn run_one(cfg: &Cfg, rng_seed: u64) -> (sim::RunResult, single::Findings, N
 }
 
 fn cfg_json(c: &Cfg) -> Value {
-    json!({"v6_peers":c.v6_peers,"node_v6":c.node_v6,"k":c.k,"table":c.table})
+    json!({"v6_peers":c.v6_peers,"node_v6":c.node_v6,"k":c.k,"table":c.table,"all_tid_lengths":c.all_tid_lengths})
 }
 
 pub fn replay(v: &Value) -> i32 {
     let c = &v["cfg"];
-    let cfg = Cfg { v6_peers: c["v6_peers"].as_bool().unwrap_or(false), node_v6: c["node_v6"].as_bool().unwrap_or(false), k: c["k"].as_u64().unwrap_or(0) as usize, table: c["table"].as_u64().unwrap_or(0) as usize };
+    let cfg = Cfg { v6_peers: c["v6_peers"].as_bool().unwrap_or(false), node_v6: c["node_v6"].as_bool().unwrap_or(false), k: c["k"].as_u64().unwrap_or(0) as usize, table: c["table"].as_u64().unwrap_or(0) as usize, all_tid_lengths: c["all_tid_lengths"].as_bool().unwrap_or(false) };
     let (res, f, ncfg) = run_one(&cfg, v["rng_seed"].as_u64().unwrap_or(1));
     let node = single::node_addr(ncfg.v6);
     let mut sizes: Vec<usize> = res.wire.iter().filter(|d| d.src == node).map(|d| d.bytes.len()).collect();
@@ -94,8 +97,16 @@ pub fn run(tier: Tier) -> Report {
                     if tier == Tier::Quick && node_v6 != v6_peers && k > 8 && k % 50 != 0 {
                         continue;
                     }
-                    cfgs.push(Cfg { v6_peers, node_v6, k, table });
+                    cfgs.push(Cfg { v6_peers, node_v6, k, table, all_tid_lengths: false });
                 }
+            }
+        }
+    }
+    // every transaction id length 0..=32 on stores that need the cap
+    for k in tier.pick(vec![150usize, 200, 500], vec![60, 100, 146, 150, 177, 200, 300, 499, 500]) {
+        for v6 in [false, true] {
+            for table in [0usize, 9] {
+                cfgs.push(Cfg { v6_peers: v6, node_v6: v6, k, table, all_tid_lengths: true });
             }
         }
     }
